@@ -1,5 +1,7 @@
 //go:build verif
 
+// verif:checks c09 c10   (bin/mkoverlay.sh adds this file only to the builds of these checks)
+
 package value
 
 import (
